@@ -36,6 +36,7 @@ import Scico.Proofs.StepsOpial3
 import Scico.Proofs.StepsOpial4
 import Scico.Proofs.StepsFISTA2
 import Scico.Proofs.StepsPDHGStrong
+import Scico.Proofs.StepsXSolve
 import Scico.Model.StepsSource
 
 set_option linter.unusedSectionVars false
@@ -609,6 +610,24 @@ theorem C03_pdhg_alpha_strong (p : PDHGParams ℝ X Z) (F : Fn X) (xs : X) (zs :
   ⟨fun s => pdhg_fejer_step_alpha_strong p F xs zs H R hsm s, fun a b => pdMA_nonneg p H.tau H.sigma R a b,
    fun hg s => pdhg_x_tendsto_alpha p F xs zs H R hg hsm s⟩
 
+/-- the x-update of the LINEAR-SYSTEM family of ADMM sub-problem solvers (`LinearSubproblemSolver`, `MatrixSubproblemSolver`,
+    `CircularConvolveSolver`, `FBlockCircularConvolveSolver`) meets the contract `XSolver` that the ADMM theorems of this file assume of
+    `solveX`.  Transcription of `_admmaux.py`: `lhs_op = H + Σρ_i C_iᴴC_i` (`internal_init`, `H = 2·scale·AᴴWA`), `compute_rhs() =
+    g0 + Σρ_i C_iᴴ(z_i − u_i)` (`g0 = 2·scale·AᴴWy`; `f = None`: `H = 0`, `g0 = 0`), `solve` returns `x` with `lhs_op x = rhs` (that the
+    concrete CG / Cholesky / DFT solvers do so is C10 / C14).  With `f` differentiable, `∇f = H − g0` (a quadratic loss), additive
+    `C_iᴴ` and injective `lhs_op`: `solveX` returns the stationary point of the x-sub-problem and that point is unique — so
+    `C03_admm_fixed`, the Lyapunov / relaxed-`W` descent, residual and convergence theorems apply to these solvers; on the states the
+    optimiser reaches (all lists of length `N`) the sum over the paired constraints is `lhs_op` itself -/
+theorem C03_admm_linear_solver_contract (F : Fn X) (gradf : X → X) (Q : QuadLoss F gradf) (cons : List (Con X Z))
+    (hadd : ∀ c ∈ cons, ∀ a b, c.Cadj (a - b) = c.Cadj a - c.Cadj b)
+    (g0 : X) (H : X → X) (hgrad : ∀ x, gradf x = H x - g0) (solveX : List Z → List Z → X → X)
+    (hsolve : ∀ z u x0, linLhsT cons H z u (solveX z u x0) = linRhs cons g0 z u)
+    (hinj : ∀ z u x x', linLhsT cons H z u x = linLhsT cons H z u x' → x = x') :
+    XSolver F cons solveX ∧
+    (∀ z u : List Z, z.length = cons.length → u.length = cons.length → ∀ x, linLhsT cons H z u x = linLhs cons H x) :=
+  ⟨linear_solver_XSolver F gradf Q cons hadd g0 H hgrad solveX hsolve hinj,
+   fun z u hz hu x => linLhsT_eq cons H z u hz hu x⟩
+
 /-- the parameter ranges printed in the class docstrings (pinned strings of `Model/StepsSource.lean`, compared with the working
     tree by the generated obligation `Scico.Generated.StepsTables.constraints_ok` on every run) - the hypotheses `LADMMHyp`,
     `PADMMHyp`, `PDHGHyp` / `PDHGHypA`, `DescentLemma` of the theorems of this file transcribe exactly these -/
@@ -808,5 +827,10 @@ example (y0 : X) (s : PDHGState X X) :
     Filter.Tendsto (fun k => pdhgMinimizer (iter (pdhgSpecStep (exPDHGA y0 0)) k s)) Filter.atTop (nhds y0) :=
   (C03_pdhg_alpha_strong (exPDHGA y0 0) (halfSq y0) y0 0 (exPDHGA_hyp y0 0) (exPDHGA_range y0 le_rfl zero_le_one)
     (halfSq_strong y0)).2.2 (by norm_num) s
+
+-- the linear-system x-update on an instance (one identity constraint, `ρ = 1`, `f = ½‖· − y0‖²`): normal equation solved exactly,
+-- contract met, so e.g. the fixed-point theorem applies to it
+example (y0 : X) : QuadLoss (halfSq y0) (fun x => x - y0) ∧ XSolver (halfSq y0) [idCon 1] (exLinSolve y0) :=
+  ⟨halfSq_quadLoss y0, exLinSolve_XSolver y0⟩
 
 end Scico.Props.C03
